@@ -148,6 +148,13 @@ fn run_generic<S: Subject>(m: &S, lay: &Layout, t: &mut Tape, cx: &mut Cx) -> Re
         let mut swept = 0u64;
         while a < hi {
             point_queries(m, lay, a as u64, cx)?;
+            if end - (first as u128) <= 12 {
+                // tiny universe: every length
+                for n in 0..=14usize {
+                    range_queries(m, lay, a as u64, n, cx)?;
+                    offset_queries(m, lay, a as u64, n, cx)?;
+                }
+            }
             for n in [1usize, 2, 3, 25] {
                 range_queries(m, lay, a as u64, n, cx)?;
             }
@@ -272,6 +279,73 @@ fn run_mock(t: &mut Tape, cx: &mut Cx) -> Result<(), String> {
     run_generic(&m, &lay, t, cx)
 }
 
+/// All layouts of a universe of `TINY` consecutive addresses: every address is unmapped, starts a
+/// region, or continues the previous region.
+const TINY: usize = 8;
+
+fn tiny_layouts() -> Vec<Vec<(u64, u64)>> {
+    let mut out = Vec::new();
+    let total = 3usize.pow(TINY as u32);
+    'next: for code in 0..total {
+        let mut d = [0u8; TINY];
+        let mut c = code;
+        for x in d.iter_mut() {
+            *x = (c % 3) as u8;
+            c /= 3;
+        }
+        let mut regs: Vec<(u64, u64)> = Vec::new();
+        for i in 0..TINY {
+            match d[i] {
+                0 => {}
+                1 => regs.push((i as u64, 1)),
+                _ => {
+                    if i == 0 || d[i - 1] == 0 {
+                        continue 'next; // "continues" needs a mapped predecessor: not a distinct layout
+                    }
+                    regs.last_mut().unwrap().1 += 1;
+                }
+            }
+        }
+        if !regs.is_empty() {
+            out.push(regs);
+        }
+    }
+    out
+}
+
+thread_local! {
+    static TINY_LAYOUTS: Vec<Vec<(u64, u64)>> = tiny_layouts();
+}
+
+/// Exhaustive: every layout of the tiny universe x 3 anchors x both subjects, every address of
+/// the universe +-3 with every point query and every length 0..=14.
+fn run_tiny(t: &mut Tape, cx: &mut Cx) -> Result<(), String> {
+    let subject = t.below(2);
+    let anchor = t.below(3);
+    let rel = TINY_LAYOUTS.with(|l| l[t.idx(l.len())].clone());
+    let end_limit: u128 = if subject == 0 { TOP - 1 } else { TOP };
+    let base: u64 = match anchor {
+        0 => 0,
+        1 => (1u64 << 32) - 4,
+        _ => (end_limit - TINY as u128) as u64,
+    };
+    let lay = Layout { regs: rel.iter().map(|&(s, l)| (base + s, l)).collect() };
+    cx.nt("tiny_universe");
+    cx.label(["anchor_0", "anchor_2_32", "anchor_top"][anchor as usize]);
+    if subject == 0 {
+        let m = build_mmap(&lay)?;
+        run_generic(&m, &lay, t, cx)
+    } else {
+        let m = MockMem::new(&lay);
+        run_generic(&m, &lay, t, cx)
+    }
+}
+
+fn gen_tiny(_t: Tier) -> Box<dyn Iterator<Item = Vec<u64>>> {
+    let n = TINY_LAYOUTS.with(|l| l.len()) as u64;
+    Box::new((0..2u64).flat_map(move |s| (0..3u64).flat_map(move |a| (0..n).map(move |i| vec![s, a, i]))))
+}
+
 /// Hand-written regression cases (bypass the generators).
 fn run_regress(t: &mut Tape, cx: &mut Cx) -> Result<(), String> {
     match t.below(2) {
@@ -302,6 +376,7 @@ pub fn property() -> Property {
         subchecks: vec![
             SubCheck { name: "mmap", builds: &[Build::Std], kind: Kind::Random { quick: 6_000, thorough: 400_000, max_words: 160 }, run: run_mmap },
             SubCheck { name: "mock", builds: &[Build::Std], kind: Kind::Random { quick: 6_000, thorough: 400_000, max_words: 160 }, run: run_mock },
+            SubCheck { name: "tiny_universes", builds: &[Build::Std], kind: Kind::Exhaustive { gen: gen_tiny }, run: run_tiny },
             SubCheck { name: "regress", builds: &[Build::Std], kind: Kind::Exhaustive { gen: gen_regress }, run: run_regress },
         ],
     }
